@@ -454,11 +454,9 @@ def header_parse_header_only(src: Path) -> tuple[bool, list[str]]:
 ORDER_FREE_CALLS = {"sorted", "len", "min", "max", "sum", "any", "all", "set", "frozenset", "bool"}
 ORDERED_CALLS = {"list", "tuple", "enumerate", "iter", "next", "join", "reversed", "zip", "map", "filter", "repr", "str"}
 
-# ordered iterations over a str/Path set that cannot reach the output, with the reason (reviewed by hand)
-NO_OUTPUT_SITES = {
-    ("compile/compiling.py", "rmtree", "directory_exceptions"): "only fills another set (exception_paths)",
-    ("compile/compiling.py", "build", "{namespace_folder} | overrides_folders"): "order of deleting folders; the raised message is constant",
-}
+# further ordered iterations over a str/Path set that cannot reach the output, with the reason (reviewed by hand);
+# loops that only delete / fill a set / raise a constant are recognised structurally (loop_cannot_reach_output)
+NO_OUTPUT_SITES: dict = {}
 
 
 OWNER_RECEIVERS = {
@@ -540,6 +538,43 @@ def set_elem_type(e: ast.AST, attrs, locs, cls_name) -> str | None:
     return None
 
 
+SIDE_EFFECT_ONLY_CALLS = {"rmtree", "add", "unlink", "rmdir", "isdir", "is_dir", "is_file", "glob", "JMCBuildError"}
+
+
+def loop_cannot_reach_output(loop: ast.For) -> str | None:
+    """a `for` whose body only deletes files/folders, fills a set, skips, or raises a CONSTANT message: the iteration order
+    cannot reach emitted files or diagnostics.  Returns the reason, or None."""
+    def ok(st) -> bool:
+        if isinstance(st, (ast.Continue, ast.Pass)):
+            return True
+        if isinstance(st, ast.Raise):
+            e = st.exc
+            return isinstance(e, ast.Call) and all(isinstance(a, ast.Constant) for a in e.args) and not e.keywords
+        if isinstance(st, ast.If):
+            return calls_ok(st.test) and all(ok(x) for x in st.body + st.orelse)
+        if isinstance(st, ast.Try):
+            return all(ok(x) for x in st.body + st.orelse + st.finalbody) and all(all(ok(x) for x in h.body) for h in st.handlers)
+        if isinstance(st, ast.For):
+            return calls_ok(st.iter) and all(ok(x) for x in st.body + st.orelse)
+        if isinstance(st, ast.Expr) and isinstance(st.value, ast.Call):
+            return calls_ok(st.value)
+        return False
+
+    def calls_ok(e) -> bool:
+        for n in ast.walk(e):
+            if isinstance(n, ast.Call):
+                nm = n.func.id if isinstance(n.func, ast.Name) else n.func.attr if isinstance(n.func, ast.Attribute) else None
+                if nm not in SIDE_EFFECT_ONLY_CALLS:
+                    return False
+            if isinstance(n, (ast.JoinedStr, ast.Yield, ast.YieldFrom, ast.NamedExpr)):
+                return False
+        return True
+
+    if all(ok(st) for st in loop.body + loop.orelse):
+        return "the loop only deletes files/folders, fills a set, skips or raises a constant message"
+    return None
+
+
 def read_set_sites(src: Path) -> list[dict]:
     attrs = set_attrs(src)
     sites = []
@@ -574,7 +609,12 @@ def read_set_sites(src: Path) -> list[dict]:
             t = set_elem_type(it, attrs, locs, cls)
             if t is None:
                 return
-            sites.append(dict(file=rel, func=fn.name if fn is not None else "<module>", line=node.lineno, expr=ast.unparse(it), elem=t, use=use))
+            site = dict(file=rel, func=fn.name if fn is not None else "<module>", line=node.lineno, expr=ast.unparse(it), elem=t, use=use)
+            if isinstance(node, ast.For):
+                why = loop_cannot_reach_output(node)
+                if why:
+                    site["no_output"] = why
+            sites.append(site)
 
         for n in ast.walk(tree):
             if isinstance(n, ast.For):
@@ -607,9 +647,9 @@ def read_set_sites(src: Path) -> list[dict]:
             s["cls"] = "UOrderFree"
         elif s["elem"] == "int":
             s["cls"] = "UIntOrdered"
-        elif (s["file"], s["func"], s["expr"]) in NO_OUTPUT_SITES:
+        elif s.get("no_output") or (s["file"], s["func"], s["expr"]) in NO_OUTPUT_SITES:
             s["cls"] = "UNoOutput"
-            s["reason"] = NO_OUTPUT_SITES[(s["file"], s["func"], s["expr"])]
+            s["reason"] = s.get("no_output") or NO_OUTPUT_SITES[(s["file"], s["func"], s["expr"])]
         else:
             s["cls"] = "USeedOrdered"
     return sites
